@@ -18,7 +18,7 @@ type engine struct {
 var engines = map[string]engine{}
 
 func init() {
-	for _, p := range []string{"C01", "C02", "C03", "C08", "C10", "C13", "C15", "C18"} {
+	for _, p := range []string{"C01", "C02", "C03", "C10", "C13", "C15", "C18"} {
 		engines[p] = engine{genSeqPlan, runSeq}
 	}
 }
